@@ -288,6 +288,19 @@ func main() {
 			if os.Getenv("GENRUN_HASHONLY") != "" {
 				return
 			}
+			// NoClean on, destination not there yet (the first run of a build that never cleans): the generator succeeds and writes
+			// the same files (C14 quantifies over NoClean on/off; the unit's own nc= option covers a destination that exists)
+			if !u.stale { // (a unit whose destination was seeded with a leftover file compares against that file as well)
+				nconf := fconf(u.pkg + "_insn")
+				nconf.NoClean = true
+				_ = os.RemoveAll(filepath.Join(base, u.pkg+"_insn"))
+				if err := compile(nconf); err != nil {
+					u.obs["gen"] = "err-noclean-fresh"
+				} else if !sameUpToNumbering(out, readDir(filepath.Join(base, u.pkg+"_insn"))) {
+					u.obs["gen"] = "noclean-fresh-differs"
+				}
+				_ = os.RemoveAll(filepath.Join(base, u.pkg+"_insn"))
+			}
 			det, tgt := "ok", "ok"
 			if err := compile(fconf(u.pkg + "_ins2")); err != nil || !sameUpToNumbering(out, readDir(filepath.Join(base, u.pkg+"_ins2"))) {
 				det = "no"
